@@ -28,6 +28,10 @@ func vScenarioC07(rc *runCtx) {
 	os.MkdirAll(dst, 0755)
 	mode := tp.Pick("c07.mode", 6, 2, 1, 1) // 0 collisions, 1 repeated transfer, 2 name at the length limit, 3 no fresh name left
 	spec := vGenSources(rc, src, 4, cfg.dirMode, maxSize, true)
+	if tp.Bool("c07.samepath", 150) {
+		// the very same path named twice on the command line: two paths with the same base name like any others
+		spec.paths = append(spec.paths, spec.paths[tp.Draw("c07.samepath.which", len(spec.paths))])
+	}
 	if mode == 2 {
 		// a source whose name is at / near the 255-byte limit, colliding at the destination
 		n := 251 + tp.Draw("longlen", 5) // 251..255
